@@ -6,3 +6,5 @@ import TempestVerif.Props.C04
 import TempestVerif.Props.C12
 import TempestVerif.Props.C09
 import TempestVerif.Props.C06
+import TempestVerif.Props.C20
+import TempestVerif.Props.C05
